@@ -15,7 +15,7 @@ RULE = (
     "form {free, fixed rendering} x analyze {False, True} x ignore_comments. A program is in the "
     "quantifier's domain iff fparser.api.parse accepts it (no exception). Oracles for accepted P: the "
     "regenerated source is accepted again; body(str(parse1(str(parse1(P))))) == body(str(parse1(P))); the "
-    "depth sequence from api.walk is the same in both parses and the statement count equals the model's; "
+    "depth sequence from api.walk is the same in both parses, equals the depth sequence the block structure of P dictates (model G roles), and the statement count equals the model's; "
     "per statement the sequence of names, numeric and character literals and dotted operators equals the "
     "source's. Non-trivial = accepted program with >= 3 statements."
 )
@@ -88,7 +88,47 @@ def depth_seq(tree):
     return out
 
 
-def judge(src, isfree, analyze, ic, model_stmts):
+def model_depths(prog):
+    """walk() depth of every statement as the block structure of P dictates:
+    a block's opening and END statements at depth d, its content (ELSE / CASE /
+    CONTAINS lines included) at d + 1, units at depth 1; the statement that
+    terminates a labelled DO by its label is the LAST CHILD of that loop.
+    None for programs with shared DO termination (known finding F32)."""
+    if any(t.startswith("shared") for s in prog for t in s.tags):
+        return None
+    out = []
+    for s, d in zip(prog, corpus.depths(prog)):
+        if s.kind == "program_anon":
+            continue
+        if s.role == "mid":
+            out.append(d + 2)
+        elif s.role == "close" and s.kind in ("do_term", "continue_term", "action_term"):
+            out.append(d + 2)
+        else:
+            out.append(d + 1)
+    return out
+
+
+def statement_depths(tree):
+    """depth sequence of the statements the model knows: the action statement
+    held inside a logical IF (WHERE / FORALL statement) is not a statement of
+    its own in the model"""
+    a = api()
+    out = []
+    prev = None
+    for s, d in a.walk(tree):
+        name = type(s).__name__
+        if name == "Comment":
+            continue
+        if prev is not None and prev[0] in ("If", "WhereStmt", "ForallStmt") and d == prev[1] + 1:
+            prev = None
+            continue
+        prev = (name, d)
+        out.append(d)
+    return out
+
+
+def judge(src, isfree, analyze, ic, model_stmts, mdepths=None):
     """returns ('not-accepted', info) | (None, None) | (kind, detail)"""
     try:
         t1 = parse1(src, isfree, analyze, ic)
@@ -113,6 +153,11 @@ def judge(src, isfree, analyze, ic, model_stmts):
     d1, d2 = depth_seq(t1), depth_seq(t2)
     if d1 != d2:
         return "nesting-differs", "depths first pass %r, second %r" % (d1, d2)
+    if mdepths is not None:
+        sd = statement_depths(t1)
+        if sd != list(mdepths):
+            k = next((i for i, (x, y) in enumerate(zip(sd, mdepths)) if x != y), min(len(sd), len(mdepths)))
+            return "block-structure", "walk() depth of statement %d (%r) is %s, the block structure of the source gives %s\n  observed: %r\n  model   : %r" % (k + 1, model_stmts[k][2] if k < len(model_stmts) else "?", sd[k] if k < len(sd) else "-", mdepths[k] if k < len(mdepths) else "-", sd, list(mdepths))
     code = [l for l in b1 if not l.startswith("!") and not l.startswith("C ")]
     if len(code) != len(model_stmts):
         return "statement-count", "model has %d statements, regenerated text %d\n%s" % (len(model_stmts), len(code), "\n".join(b1))
@@ -170,6 +215,7 @@ def check_case(res, cid, prog, tag):
     if any(t.startswith("shared") for s in prog for t in s.tags):
         tag = "shared-do-termination"
     model = [(s.label, s.name, s.text) for s in prog if s.kind != "program_anon"]
+    md = model_depths(prog)
     free = corpus.render(prog)
     srcs = [("free", free, True)]
     if all(len(s.line()) < 50 for s in prog):
@@ -180,7 +226,7 @@ def check_case(res, cid, prog, tag):
                 res.evals += 1
                 hk = h64(src, form, str(analyze), str(ic))
                 res.states.add(hk)
-                kind, detail = judge(src, isfree, analyze, ic, model)
+                kind, detail = judge(src, isfree, analyze, ic, model, md)
                 res.outcomes[kind or "ok"] += 1
                 if kind == "not-accepted":
                     res.counters["not_accepted"] += 1
@@ -189,7 +235,7 @@ def check_case(res, cid, prog, tag):
                 if len(model) >= 3:
                     res.nontrivial.add(hk)
                 if kind:
-                    res.violation("C19|%s|%s|%s" % (kind, tag, form), "%s form=%s analyze=%s ic=%s\n%s\n--- source:\n%s" % (cid, form, analyze, ic, detail, src), {"src": src, "isfree": isfree, "analyze": analyze, "ic": ic, "model": [list(m) for m in model], "tag": tag, "form": form}, cost=len(src))
+                    res.violation("C19|%s|%s|%s" % (kind, tag, form), "%s form=%s analyze=%s ic=%s\n%s\n--- source:\n%s" % (cid, form, analyze, ic, detail, src), {"src": src, "isfree": isfree, "analyze": analyze, "ic": ic, "model": [list(m) for m in model], "tag": tag, "form": form, "mdepths": md}, cost=len(src))
 
 
 def plan(tier, seed):
@@ -209,7 +255,7 @@ def run(task):
 
 def replay(case):
     logging.disable(logging.CRITICAL)
-    kind, detail = judge(case["src"], case["isfree"], case["analyze"], case["ic"], [tuple(m) for m in case["model"]])
+    kind, detail = judge(case["src"], case["isfree"], case["analyze"], case["ic"], [tuple(m) for m in case["model"]], case.get("mdepths"))
     if kind and kind != "not-accepted":
         return [{"sig": "C19|%s|%s|%s" % (kind, case["tag"], case["form"]), "detail": detail}]
     return []
